@@ -170,12 +170,25 @@ CHECKS = {
         ref="DESIGN.md section 3 C20"),
 }
 
+CHECKS["C15"] = dict(
+    level="translation_validation", engine="equiv",
+    technique="graph equivalence of the traced folded layer (real __init__/build/call/get_folded_weights, legacy BatchNormalization surface stubbed) "
+              "with stock convolution + batch normalisation: hash-consed term identity, z3 real arithmetic with uninterpreted quantizers",
+    text="Per configuration the folded layer's call(training=False) is traced with input, kernel, bias, gamma, beta, moving mean and moving "
+         "variance all symbolic and proved equal to the stock Keras-3 convolution applied to q_k/q_b of the layer's own folded weights (term "
+         "identity, else exact arithmetic with quantizers as uninterpreted functions); get_folded_weights() is proved equal to the "
+         "property's closed formulas and the unquantized layer equal to stock convolution followed by stock BatchNormalization over the "
+         "reals (z3); counterexamples are replayed on the real layers.",
+    note="Layer-level clauses only, inference mode only.  The folded layers cannot be constructed under the pinned Keras 3 (its "
+         "BatchNormalization rejects the legacy arguments): the check supplies the legacy attribute surface as an environment stub (BNShim) "
+         "inside the two modules while it runs.  unfold_model / convert_to_folded_model / model_quantize(enable_bn_folding) abort under the "
+         "pinned Keras and are NOT covered.  Formula and conv+BN clauses are equalities over the reals (rounding outside the claim).",
+    ref="DESIGN.md section 3 C15")
+
 NOT_YET = "check not built yet in this revision (see DESIGN.md section 7 build order)"
 NOT_APPLICABLE = {
     "C14": "model_save_quantized_weights aborts at its first statement under the pinned Keras 3 (qgraph needs KerasTensor.ref) and its body is "
            "eager NumPy/Keras interop that can neither be traced to a graph nor run on solver-backed proxies (DESIGN.md section 5)",
-    "C15": "QConv2DBatchnorm / QDepthwiseConv2DBatchnorm cannot be constructed and unfold_model / convert_to_folded_model abort under the "
-           "pinned Keras 3: there is no executable code to encode (DESIGN.md section 5)",
 }
 
 
